@@ -614,6 +614,89 @@ def _value_src(x) -> str:
     return re.sub(r"<(\w+)\.(\w+): [^>]*>", r"\1.\2", repr(x))
 
 
+class _Unconvertible:
+    """a leaf no routine accepts (except those that take anything: then the repair history is skipped)"""
+    __slots__ = ()
+
+    def __repr__(self):
+        return "coremodel._Unconvertible()"
+
+
+def _leaf_paths(x, path=(), depth=0):
+    """paths to the leaves of a wire form through its MUTABLE containers (list items, dict values)"""
+    if depth > 8:
+        return
+    if isinstance(x, list):
+        for i, y in enumerate(x):
+            yield from _leaf_paths(y, path + (i,), depth + 1)
+    elif type(x) is dict:
+        for k, y in x.items():
+            yield from _leaf_paths(y, path + (k,), depth + 1)
+    elif path:
+        yield path
+
+
+def _at(x, path):
+    for k in path[:-1]:
+        x = x[k]
+    return x, path[-1]
+
+
+def repair_histories(g, agree, rng, per_group=4):
+    """a call that FAILS must leave nothing behind: damage one leaf of a valid wire form, call (it raises), repair the
+    same object in place, call again -- the outcome must be the cold outcome of the valid input (C12 lists "mutate a
+    previously passed input" among the operations of a history; a guard that leaks its markers on failure shows here)"""
+    import copy
+    calls, fails = 0, []
+    raw = getattr(g, "raw", [])
+    cands = [i for i, (d, ri, x, cold) in enumerate(raw) if d == "u" and cold[0] == "ok" and isinstance(x, (list, dict))]
+    rng.shuffle(cands)
+    done = 0
+    for idx in cands:
+        if done >= per_group:
+            break
+        d, ri, x, cold = raw[idx]
+        paths = list(_leaf_paths(x))
+        if not paths:
+            continue
+        path = rng.choice(paths)
+        try:
+            y = copy.deepcopy(x)
+        except Exception:
+            continue
+        parent, key = _at(y, path)
+        good = parent[key]
+        parent[key] = _Unconvertible()
+        impl.clear_caches()
+        r1 = g.observe(d, ri, y, clear=False)
+        calls += 1
+        if r1[0] != "raise":
+            continue
+        parent[key] = good
+        r2 = g.observe(d, ri, y, clear=False)
+        calls += 1
+        done += 1
+        if not agree(cold, r2):
+            fails.append({
+                "kind": "warm-history", "key": f"repair|{g.env['module']}|{ri}",
+                "symptom": "a call on a REPAIRED input (the same object, one leaf was unconvertible in the previous, failing call) "
+                           "gives another outcome than the same call cold: the failing call left state behind",
+                "env": dict({k: v for k, v in g.env.items() if k not in ("module", "defs")},
+                            module=g.env["module"], defs={str(k): v for k, v in g.env["defs"].items()}),
+                "group_class": type(g).__module__ + ":" + type(g).__name__,
+                "roots": list(g.roots), "ref_depth": getattr(g, "ref_depth", 0),
+                "history": [{"dir": d, "ri": ri, "type": repr(g.pytys[ri]), "input": _value_src(x)}],
+                "repair": {"damage_path": [k if isinstance(k, (int, str)) else repr(k) for k in path]},
+                "cold": repr(cold[1])[:400], "warm": repr(r2[1])[:400] if r2[0] == "ok" else r2[1],
+                "module_source": getattr(g, "src", None),
+                "replay_spec": (g.replay_spec() if hasattr(g, "replay_spec") else None),
+            })
+            break
+    repair_histories.done = getattr(repair_histories, 'done', 0) + done
+    repair_histories.tried = getattr(repair_histories, 'tried', 0) + len(cands)
+    return calls, fails
+
+
 def warm_pass(groups, same, max_fail=6):
     """returns (calls made, failures, skipped groups); a failure is a self-contained replay payload"""
     calls, fails, skipped = 0, [], 0
@@ -646,6 +729,12 @@ def warm_pass(groups, same, max_fail=6):
                 bad = (idx, cold, warm)
                 break
         if bad is None:
+            import random as _random
+            c2, f2 = repair_histories(g, agree, _random.Random(len(raw) * 7919 + len(g.roots)))
+            calls += c2
+            fails.extend(f2)
+            if len(fails) >= max_fail:
+                break
             continue
         idx, cold, warm = bad
         # shrink: one earlier call that is enough?
@@ -718,6 +807,17 @@ def replay_warm(payload, same):
         cold = g.observe(d, ri, x)
         impl.clear_caches()
         warm = None
+        if payload.get("repair"):
+            import copy
+            y = copy.deepcopy(x)
+            path = payload["repair"]["damage_path"]
+            parent, key = _at(y, path)
+            good = parent[key]
+            parent[key] = _Unconvertible()
+            g.observe(d, ri, y, clear=False)        # the failing call
+            parent[key] = good
+            warm = g.observe(d, ri, y, clear=False)  # the same object, repaired
+            steps = []
         for d2, ri2, x2 in steps:
             warm = g.observe(d2, ri2, x2, clear=False)
         ok = cold[0] == warm[0] and (same(cold[1], warm[1]) if cold[0] == "ok" else cold[1] == warm[1])
@@ -740,6 +840,8 @@ def warm_replay(run, groups, tag):
     run.record_corr(f"warm-replay[{tag}](every case again without clearing caches, forwards then backwards, vs its cold outcome)",
                     calls, [{k: v for k, v in f.items() if k not in ("env", "module_source")} for f in fails],
                     dist={"groups": len(groups), "groups_skipped_for_union_spelling_collision": skipped,
+                          "repair_histories(fail, repair in place, call again)": getattr(repair_histories, "done", 0),
+                          "repair_candidates": getattr(repair_histories, "tried", 0),
                           "seconds": round(time.time() - t0, 1)})
     if not hasattr(run, "tie_failures"):
         run.tie_failures = []
